@@ -7,7 +7,6 @@ use vstd::string::StringSliceAdditionalSpecFns;
 use vstd::std_specs::iter::IteratorSpec;
 verus! {
 
-//#include ../_shared/str_axioms.inc.rs
 
 /// stand-in for crate::error::GitAiError (never constructed by the verified text)
 pub enum GitAiError { Generic(String) }
@@ -127,163 +126,6 @@ fn opq_find_nl(data: &Vec<u8>, pos: usize) -> (r: Option<usize>)
 
     Ok(true)
 //@ }
-//#end
-
-// ---------------------------------------------------------------- (2) the textual rewrite of the base-commit field
-pub open spec fn sb(s: String) -> Seq<u8> { encode_utf8(s@) }
-pub open spec fn field_bytes() -> Seq<u8> { encode_utf8("\"base_commit_sha\""@) }
-pub open spec fn is_ws(b: u8) -> bool { b == 0x20 || b == 0x0a || b == 0x09 || b == 0x0d }
-pub open spec fn all_ws(bytes: Seq<u8>, a: int, b: int) -> bool { forall|i: int| a <= i < b ==> is_ws(#[trigger] bytes[i]) }
-/// pat occurs at p and nowhere before
-pub open spec fn occurs_at(bytes: Seq<u8>, pat: Seq<u8>, p: int) -> bool { 0 <= p && p + pat.len() <= bytes.len() && bytes.subrange(p, p + pat.len()) == pat }
-pub open spec fn first_occurrence(bytes: Seq<u8>, pat: Seq<u8>, p: int) -> bool { occurs_at(bytes, pat, p) && forall|q: int| 0 <= q < p ==> !occurs_at(bytes, pat, q) }
-/// after the key come optional whitespace, a colon, optional whitespace and the opening quote; vs is the first byte of the value
-pub open spec fn value_starts(bytes: Seq<u8>, after_key: int, vs: int) -> bool {
-    exists|c: int| after_key <= c && c + 2 <= vs && vs <= bytes.len() && all_ws(bytes, after_key, c) && #[trigger] bytes[c] == 0x3a && all_ws(bytes, c + 1, vs - 1) && bytes[vs - 1] == 0x22
-}
-/// where the JSON string whose content starts at p ends: a backslash escapes the next byte, the first other quote closes it
-pub open spec fn str_end(bytes: Seq<u8>, p: int) -> Option<int>
-    decreases bytes.len() - p
-{
-    if p < 0 || p >= bytes.len() { None }
-    else if bytes[p] == 0x5c { if p + 2 >= bytes.len() { None } else { str_end(bytes, p + 2) } }
-    else if bytes[p] == 0x22 { Some(p) }
-    else { str_end(bytes, p + 1) }
-}
-/// the note with the string value [vs, ve) replaced by target: every other byte is kept
-pub open spec fn spliced(bytes: Seq<u8>, vs: int, ve: int, target: Seq<u8>) -> Seq<u8> { bytes.subrange(0, vs) + target + bytes.subrange(ve, bytes.len() as int) }
-pub open spec fn remap_ok(bytes: Seq<u8>, target: Seq<u8>, out: Seq<u8>) -> bool {
-    exists|fp: int, vs: int, ve: int| #![trigger first_occurrence(bytes, field_bytes(), fp), spliced(bytes, vs, ve, target)]
-        first_occurrence(bytes, field_bytes(), fp) && value_starts(bytes, fp + field_bytes().len(), vs) && vs <= ve < bytes.len()
-        && str_end(bytes, vs) == Some(ve) && spliced(bytes, vs, ve, target) == out
-}
-/// O1 stubs (documented behaviour of std): str::find(&str) - the first occurrence, on a char boundary; `&s[a..b]`;
-/// String::with_capacity (empty); String::push_str (appends the bytes)
-#[verifier::external_body]
-fn opq_find_field(s: &str, pat: &str) -> (r: Option<usize>)
-    ensures
-        r is None ==> forall|q: int| !occurs_at(s.spec_bytes(), pat.spec_bytes(), q),
-        r is Some ==> first_occurrence(s.spec_bytes(), pat.spec_bytes(), r.unwrap() as int),
-{ unimplemented!() }
-#[verifier::external_body]
-fn str_sub(s: &str, a: usize, b: usize) -> (r: &str)
-    requires a <= b <= s.spec_bytes().len(), is_char_boundary(s.spec_bytes(), a as int), is_char_boundary(s.spec_bytes(), b as int),
-    ensures r.spec_bytes() == s.spec_bytes().subrange(a as int, b as int),
-{ unimplemented!() }
-#[verifier::external_body]
-fn opq_string_with_capacity(cap: usize) -> (r: String)
-    ensures sb(r) == Seq::<u8>::empty(),
-{ unimplemented!() }
-#[verifier::external_body]
-fn opq_push_str(s: &mut String, x: &str)
-    ensures sb(*final(s)) == sb(*old(s)) + x.spec_bytes(),
-{ unimplemented!() }
-/// In valid UTF-8 an ASCII byte starts a character, and the position after it is a char boundary too (from vstd's UTF-8 theory)
-proof fn lemma_boundary_after_ascii(bytes: Seq<u8>, i: int)
-    requires valid_utf8(bytes), 0 <= i < bytes.len(), is_char_boundary(bytes, i), bytes[i] < 128,
-    ensures is_char_boundary(bytes, i + 1),
-    decreases i
-{
-    let n = length_of_first_scalar(bytes);
-    if i == 0 {
-        assert(n == 1);
-        assert(is_char_boundary(pop_first_scalar(bytes), 0));
-    } else {
-        let rest = pop_first_scalar(bytes);
-        assert(rest == bytes.subrange(n, bytes.len() as int));
-        lemma_boundary_after_ascii(rest, i - n);
-    }
-}
-proof fn lemma_ascii_boundaries(bytes: Seq<u8>, i: int)
-    requires valid_utf8(bytes), 0 <= i < bytes.len(), bytes[i] < 128,
-    ensures is_char_boundary(bytes, i), is_char_boundary(bytes, i + 1),
-{
-    is_char_boundary_iff_not_is_continuation_byte(bytes, i);
-    lemma_boundary_after_ascii(bytes, i);
-}
-
-//#item file=src/authorship/rebase_authorship.rs kind=fn name=try_remap_base_commit_sha_field opaque='[{"expr": "note_content.find(field)", "call": "opq_find_field(note_content, field)"}, {"expr": "String::with_capacity", "call": "opq_string_with_capacity"}, {"expr": "remapped.push_str(&note_content[..value_start])", "call": "opq_push_str(&mut remapped, str_sub(note_content, 0, value_start))"}, {"expr": "remapped.push_str(target_commit)", "call": "opq_push_str(&mut remapped, target_commit)"}, {"expr": "remapped.push_str(&note_content[value_end..])", "call": "opq_push_str(&mut remapped, str_sub(note_content, value_end, note_content.len()))"}]'
-fn try_remap_base_commit_sha_field(note_content: &str, target_commit: &str) -> (r_: Option<String>)
-//@     requires
-//@         // two live strings fit the address space with room to spare (Rust allocations are bounded by isize::MAX)
-//@         note_content.spec_bytes().len() + target_commit.spec_bytes().len() + 2 <= usize::MAX,
-//@     ensures
-//@         // Some: exactly one JSON string value - the one that follows the FIRST `"base_commit_sha"` key, whitespace, a colon,
-//@         // whitespace and a quote - is replaced by the target commit; every other byte of the note is kept
-//@         r_ is Some ==> remap_ok(note_content.spec_bytes(), target_commit.spec_bytes(), sb(r_.unwrap())),
-//@         // a note without the key is declined (the caller then falls back to parse + re-serialize)
-//@         (forall|q: int| !occurs_at(note_content.spec_bytes(), field_bytes(), q)) ==> r_ is None,
-{
-    let field = "\"base_commit_sha\"";
-    let field_pos = opq_find_field(note_content, field)?;
-    let bytes = note_content.as_bytes();
-    //@ let ghost bs = note_content.spec_bytes();
-    //@ let ghost fb = field.spec_bytes();
-    //@ proof { assert(fb == field_bytes()); encode_utf8_valid_utf8(note_content@); is_char_boundary_start_end_of_seq(bs); }
-
-    let mut pos = field_pos + field.len();
-    //@ let ghost after_key = pos as int;
-    while pos < bytes.len() && matches!(bytes[pos], b' ' | b'\n' | b'\t' | b'\r')
-    //@     invariant bytes@ == bs, after_key <= pos <= bs.len(), all_ws(bs, after_key, pos as int),
-    //@     decreases bs.len() - pos,
-    {
-        pos += 1;
-    }
-    if pos >= bytes.len() || bytes[pos] != b':' {
-        return None;
-    }
-    //@ let ghost c = pos as int;
-    pos += 1;
-
-    while pos < bytes.len() && matches!(bytes[pos], b' ' | b'\n' | b'\t' | b'\r')
-    //@     invariant bytes@ == bs, c + 1 <= pos <= bs.len(), all_ws(bs, c + 1, pos as int),
-    //@     decreases bs.len() - pos,
-    {
-        pos += 1;
-    }
-    if pos >= bytes.len() || bytes[pos] != b'"' {
-        return None;
-    }
-    pos += 1;
-    let value_start = pos;
-    //@ proof { assert(bs[c] == 0x3a); assert(value_starts(bs, after_key, value_start as int)); lemma_ascii_boundaries(bs, value_start - 1); }
-
-    while pos < bytes.len()
-    //@     invariant
-    //@         bytes@ == bs, value_start <= pos <= bs.len() + 1, value_start <= bs.len(),
-    //@         str_end(bs, value_start as int) == str_end(bs, pos as int),
-    //@         bs.len() + target_commit.spec_bytes().len() + 2 <= usize::MAX, bs == note_content.spec_bytes(), valid_utf8(bs),
-    //@         is_char_boundary(bs, value_start as int), is_char_boundary(bs, bs.len() as int), is_char_boundary(bs, 0),
-    //@         first_occurrence(bs, field_bytes(), field_pos as int), after_key == field_pos + field_bytes().len(), value_starts(bs, after_key, value_start as int),
-    //@     decreases bs.len() + 1 - pos,
-    {
-        match bytes[pos] {
-            b'\\' => {
-                pos += 2;
-            }
-            b'"' => {
-                let value_end = pos;
-                //@ proof { assert(str_end(bs, value_start as int) == Some(value_end as int)); lemma_ascii_boundaries(bs, value_end as int); }
-                let mut remapped = opq_string_with_capacity(
-                    note_content.len() - (value_end - value_start) + target_commit.len(),
-                );
-                opq_push_str(&mut remapped, str_sub(note_content, 0, value_start));
-                opq_push_str(&mut remapped, target_commit);
-                opq_push_str(&mut remapped, str_sub(note_content, value_end, note_content.len()));
-                //@ proof {
-                //@     assert(sb(remapped) =~= spliced(bs, value_start as int, value_end as int, target_commit.spec_bytes()));
-                //@     assert(remap_ok(bs, target_commit.spec_bytes(), sb(remapped)));
-                //@ }
-                return Some(remapped);
-            }
-            _ => {
-                pos += 1;
-            }
-        }
-    }
-
-    None
-}
 //#end
 
 } // verus!
